@@ -118,7 +118,7 @@ func c14Call(e *c14Env, method string, arg *gen.Op) (res c14Result) {
 		res.val, res.err = w.FirstIndex()
 	case "LastIndex":
 		res.val, res.err = w.LastIndex()
-	case "GetLog-sealed", "GetLog-tail":
+	case "GetLog-sealed", "GetLog-tail", "GetLog-across-rotation":
 		var l raft.Log
 		res.err = w.GetLog(arg.Min, &l)
 		res.log = &l
@@ -179,12 +179,14 @@ func c14RunScript(c *evid.Ctx, sc c14Script, seed int64) {
 	arg := &gen.Op{}
 	next := e.l.Last + 1
 	switch sc.Method {
-	case "GetLog-sealed":
+	case "GetLog-sealed", "GetLog-across-rotation":
 		arg.Min = 2
 	case "GetLog-tail":
 		arg.Min = e.l.Last
 	case "StoreLogs", "StoreLogs-waiting":
 		arg = &gen.Op{Kind: "append", Logs: []*raft.Log{gen.Entry(e.rng, next, "op", 20)}}
+	case "DeleteRange-waiting":
+		arg = &gen.Op{Kind: "delete", Min: 1, Max: 2}
 	case "StoreLogs-sealing":
 		arg = &gen.Op{Kind: "append", Logs: []*raft.Log{gen.Entry(e.rng, next, "op", 280)}}
 	case "StoreLogs-reset":
@@ -195,7 +197,7 @@ func c14RunScript(c *evid.Ctx, sc c14Script, seed int64) {
 		arg = &gen.Op{Kind: "delete", Min: e.l.Last - 2, Max: e.l.Last}
 	}
 	var preRot *sched.Parking
-	if sc.Method == "StoreLogs-waiting" {
+	if sc.Method == "StoreLogs-waiting" || sc.Method == "DeleteRange-waiting" {
 		// make a rotation pending: a sealing append whose rotation goroutine is parked
 		preRot = ctl.ParkAt("*", "rotate.received", 0)
 		big := gen.Entry(e.rng, next, "pre", 280)
@@ -208,7 +210,9 @@ func c14RunScript(c *evid.Ctx, sc c14Script, seed int64) {
 			c.Inconclusive("script %v: the rotation goroutine never reached rotate.received", sc)
 			return
 		}
-		arg.Logs[0].Index = e.l.Last + 1
+		if arg.Kind == "append" {
+			arg.Logs[0].Index = e.l.Last + 1
+		}
 	}
 	before := e.l.Clone()
 
@@ -251,7 +255,7 @@ func c14RunScript(c *evid.Ctx, sc c14Script, seed int64) {
 	switch sc.CloseMode {
 	case "during-park":
 		var park *sched.Parking
-		if sc.Method == "StoreLogs-waiting" {
+		if sc.Method == "StoreLogs-waiting" || sc.Method == "DeleteRange-waiting" {
 			// the op blocks by itself on the pending rotation; "parking" is the rotation goroutine
 			park = preRot
 			startOp()
@@ -276,6 +280,19 @@ func c14RunScript(c *evid.Ctx, sc c14Script, seed int64) {
 				waitClose(c14Watchdog)
 				return
 			}
+		}
+		if sc.Method == "GetLog-across-rotation" {
+			// the parked reader holds the state from before a rotation; Close will attach its
+			// finalizer to the state after it
+			big := gen.Entry(e.rng, e.l.Last+1, "rot", 280)
+			if err := e.w.StoreLogs([]*raft.Log{big}); err != nil {
+				c.Inconclusive("script %v: sealing append failed: %v", sc, err)
+				park.Release()
+				return
+			}
+			hooks.WaitRotation(e.w, drv.Watchdog)
+			e.l.Append([]*raft.Log{big}, 98, true)
+			before = e.l.Clone()
 		}
 		startClose()
 		closedWhileParked := waitClose(150 * time.Millisecond)
@@ -346,7 +363,7 @@ func c14RunScript(c *evid.Ctx, sc c14Script, seed int64) {
 			if res.val != before.Last {
 				c.Violation("C14:wrong-data:LastIndex", fmt.Sprintf("script %v: LastIndex=%d want %d", sc, res.val, before.Last), replay)
 			}
-		case "GetLog-sealed", "GetLog-tail":
+		case "GetLog-sealed", "GetLog-tail", "GetLog-across-rotation":
 			if d := model.LogDiff(res.log, before.Ents[arg.Min].Log); d != "" {
 				c.Violation("C14:wrong-data:GetLog", fmt.Sprintf("script %v: GetLog(%d) differs: %s", sc, arg.Min, d), replay)
 			}
@@ -583,10 +600,12 @@ func runC14(c *evid.Ctx) {
 		{"LastIndex", []string{"LastIndex.checked", "acquireState.loaded"}},
 		{"GetLog-sealed", []string{"GetLog.checked", "acquireState.loaded", "GetLog.acquired", "readFrame.beforeRead"}},
 		{"GetLog-tail", []string{"GetLog.checked", "acquireState.loaded", "GetLog.acquired", "offsetForFrame.checked", "readFrame.beforeRead"}},
+		{"GetLog-across-rotation", []string{"GetLog.acquired", "readFrame.beforeRead"}},
 		{"StoreLogs", []string{"StoreLogs.checked", "StoreLogs.locked", "acquireState.loaded", "append.buffered", "append.synced"}},
 		{"StoreLogs-sealing", []string{"StoreLogs.checked", "StoreLogs.locked", "append.synced", "rotate.triggered", "rotate.received"}},
 		{"StoreLogs-reset", []string{"StoreLogs.locked", "mutate.beforeCommit", "mutate.afterCommit", "mutate.beforeStore", "mutate.afterStore", "state.finalizer.begin"}},
 		{"StoreLogs-waiting", []string{"awaitRotation.wait"}},
+		{"DeleteRange-waiting", []string{"awaitRotation.wait"}},
 		{"DeleteRange-head", []string{"DeleteRange.checked", "DeleteRange.locked", "mutate.beforeCommit", "mutate.afterCommit", "mutate.afterStore", "state.finalizer.begin"}},
 		{"DeleteRange-tail", []string{"DeleteRange.checked", "DeleteRange.locked", "append.synced", "mutate.beforeCommit", "mutate.afterCommit", "mutate.afterStore"}},
 		{"Set", []string{"Set.checked"}},
@@ -604,7 +623,7 @@ func runC14(c *evid.Ctx) {
 				}
 				scripts = append(scripts, c14Script{Method: m.m, Point: p, Role: role, CloseMode: "during-park", Real: real})
 			}
-			if m.m != "StoreLogs-waiting" {
+			if m.m != "StoreLogs-waiting" && m.m != "DeleteRange-waiting" && m.m != "GetLog-across-rotation" {
 				scripts = append(scripts, c14Script{Method: m.m, Point: "-", CloseMode: "close-parked-flagged", Real: real},
 					c14Script{Method: m.m, Point: "-", CloseMode: "close-parked-locked", Real: real})
 			}
